@@ -66,6 +66,7 @@ type variant struct {
 	dial       []uint64 // a request / raft-transport thread making first contact with these nodes meanwhile
 	creator    bool     // a client's Create request (placement reads the member list, the proposal joins the catalogue log) meanwhile
 	damage     []int    // datasets whose partition's log store is damaged beforehand (raft panics when that group is loaded)
+	unreadable []int    // datasets whose partition's log store holds a snapshot the index cannot read (loading the group returns an error)
 }
 
 func dsID(n int) uuid.UUID { return world.ID(uint64(0xd0+n), 0xd5) }
@@ -113,6 +114,17 @@ func build(v variant) *explore.Scenario {
 				for _, n := range v.damage {
 					// a log store whose hard state points beyond its entries: etcd raft panics while restarting on it
 					if err := wal.NewBadgerWAL(db, world.ID(uint64(0xb0+n), 0x77)).Save(raftpb.HardState{Term: 1, Vote: 1, Commit: 7}, nil, raftpb.Snapshot{}); err != nil {
+						panic(err)
+					}
+				}
+				for _, n := range v.unreadable {
+					// a stored snapshot whose payload is not an index: loadRaft gets an error back from the group's start
+					w := wal.NewBadgerWAL(db, world.ID(uint64(0xb0+n), 0x77))
+					es := []raftpb.Entry{{Index: 1, Term: 1}, {Index: 2, Term: 1}}
+					if err := w.Save(raftpb.HardState{Term: 1, Vote: 1, Commit: 2}, es, raftpb.Snapshot{}); err != nil {
+						panic(err)
+					}
+					if _, err := w.CreateSnapshot(2, &raftpb.ConfState{Nodes: []uint64{1}}, []byte{0xde, 0xad, 0xbe}); err != nil {
 						panic(err)
 					}
 				}
@@ -296,6 +308,9 @@ func main() {
 		// a partition whose log store is damaged: loading its group panics inside the raft library; the catalogue goes on
 		{name: "damaged-partition-log-then-more-catalogue-changes", script: []string{"create:1:1", "create:2:1", "delete:2", "create:3:1"}, damage: []int{1}, repl: 1},
 		{name: "damaged-partition-log-vs-node-added", script: []string{"create:1:1", "create:2:1"}, damage: []int{1}, membership: []member{add(3)}, repl: 2, maxQ: 1},
+		{name: "unreadable-partition-snapshot-then-more-catalogue-changes", script: []string{"create:1:1", "create:2:1", "delete:2", "create:3:1"}, unreadable: []int{1}, repl: 1},
+		// a node leaves while ten announcements are still unread (the allocator loop is busy loading groups)
+		{name: "restart-burst-of-10-additions-then-a-removal", script: []string{"create:1:1", "create:2:1"}, membership: append(append([]member{}, burst[:10]...), rem(3)), repl: 1, maxQ: 1},
 		{name: "restart-burst-of-11-node-additions", script: []string{"create:1:1", "create:2:1"}, membership: burst, repl: 1, maxQ: 1},
 	}
 	var scs []*explore.Scenario
